@@ -1,0 +1,26 @@
+//go:build verif
+
+package predictive
+
+import "github.com/moorara/algo/grammar"
+
+// VerifCell returns what the parsing table holds at M[A,a]: the productions (in no particular order)
+// and the sync flag. ok is false when the table has no entry for the pair.
+func VerifCell(t *ParsingTable, A grammar.NonTerminal, a grammar.Terminal) (prods []*grammar.Production, sync bool, ok bool) {
+	e, ok := t.getEntry(A, a)
+	if !ok {
+		return nil, false, false
+	}
+
+	for p := range e.Productions.All() {
+		prods = append(prods, p)
+	}
+
+	return prods, e.Sync, true
+}
+
+// VerifRowsAndColumns returns the non-terminals and terminals the table was created with
+// (the rows and columns Conflicts and String iterate over).
+func VerifRowsAndColumns(t *ParsingTable) ([]grammar.NonTerminal, []grammar.Terminal) {
+	return t.nonTerminals, t.terminals
+}
